@@ -153,9 +153,9 @@ class Config:
                 result[path] = {k: escape(substitute_config_dir(v)) for k, v in obj.items()}
                 return
             for key in obj.keys():
-                convert_to_dict(f"{path}.{key}" if path else key, obj[key])
+                convert_to_dict(f"{path}.{key}" if path is not None else key, obj[key])
 
-        convert_to_dict("", self)
+        convert_to_dict(None, self)
         return result
 
 
